@@ -231,6 +231,46 @@ pub fn generate(seed: u64, scale: usize) -> Cases {
         let s = r.next();
         cases.push("from_ipv4", case_from_ip(s, ip));
     }
+    // --- the exemption over every /16 prefix: two ids that differ in their first bit are both valid only where the
+    // address is exempt; the prefixes where that happens are compared with the model's and with the reference table.
+    {
+        let sweep_seed = r.next() & 0xffff;
+        let a = id20(&mut r);
+        let mut b = a;
+        b[0] ^= 0x80;
+        let (ia, ib) = (Id::from(a), Id::from(b));
+        let mut impl_exempt: Vec<u32> = Vec::new();
+        for p in 0u32..65536 {
+            let ip = (p << 16) | ((p.wrapping_mul(40503).wrapping_add(sweep_seed as u32)) & 0xffff);
+            let addr = Ipv4Addr::from(ip);
+            if ia.is_valid_for_ip(addr) && ib.is_valid_for_ip(addr) {
+                impl_exempt.push(p);
+            }
+        }
+        let list: Vec<String> = impl_exempt.iter().map(|p| p.to_string()).collect();
+        cases.push("exempt16_sweep", format!("KExempt16 {} {} [{}]", n_hex(&a), sweep_seed, list.join("; ")));
+        // the ends of every run of exempt prefixes, and their neighbours, as single cases (a concrete failing input)
+        let mut edges: Vec<u32> = Vec::new();
+        for (k, &p) in impl_exempt.iter().enumerate() {
+            let first = k == 0 || impl_exempt[k - 1] + 1 != p;
+            let last = k + 1 == impl_exempt.len() || impl_exempt[k + 1] != p + 1;
+            if first {
+                edges.push(p);
+                if p > 0 { edges.push(p - 1); }
+            }
+            if last {
+                edges.push(p);
+                if p < 65535 { edges.push(p + 1); }
+            }
+        }
+        edges.sort();
+        edges.dedup();
+        for p in edges.into_iter().take(64) {
+            let ip = (p << 16) | ((p.wrapping_mul(40503).wrapping_add(sweep_seed as u32)) & 0xffff);
+            cases.push("exempt16_edge", case_valid(&a, ip));
+            cases.push("exempt16_edge", case_valid(&b, ip));
+        }
+    }
     for len in 0..=41usize {
         cases.push("from_bytes", case_from_bytes(len));
     }
